@@ -512,8 +512,10 @@ impl<W> Sha256Writer<W> {
 
 impl<W: std::io::Write> std::io::Write for Sha256Writer<W> {
     fn write(&mut self, buf: &[u8]) -> std::io::Result<usize> {
-        self.hasher.update(buf);
-        self.writer.write(buf)
+        // hash only what the inner writer accepted: the caller re-submits the rest
+        let n = self.writer.write(buf)?;
+        self.hasher.update(&buf[..n]);
+        Ok(n)
     }
 
     fn flush(&mut self) -> std::io::Result<()> {
